@@ -176,7 +176,7 @@ Definition parse_step (sv ov : value) : option hstep :=
   | VL [VZ _; VZ action; VZ _],
     VL [VZ sent; VB req; VB rnonce; VB rct; VZ openable; VZ fwd; VZ nrep; VB rep; VB pnonce; VB pct;
         VZ authok; VB plain; VL cookiesv; VZ intact; VZ cerr; VZ ked; VL poolv; VB k1; VB k2; VZ curk; VL forgedv; VZ nosend;
-        VL extrav; VL seenv; VZ stray] =>
+        VL extrav; VL seenv; VZ stray; VZ foreign] =>
       match parse_facts cookiesv, getBs poolv, getBs forgedv, parse_extras extrav, getBs seenv with
       | Some cfs, Some pool, Some forged, Some extra, Some seen =>
           Some {| h_action := action;
@@ -186,6 +186,7 @@ Definition parse_step (sv ov : value) : option hstep :=
                               so_rekeyed := 0 <? ked; so_pool_after := pool; so_c2s := k1; so_s2c := k2;
                               so_cur_key := curk; so_forged := forged;
                               so_nforwarded := fwd; so_nreplies := nrep; so_extra := extra; so_seen_before := seen;
+                              so_foreign := zb foreign;
                               so_nosend := nosend |};
                   h_req_nonce := rnonce; h_req_ct := rct; h_nrep := nrep;
                   h_rep_nonce := pnonce; h_rep_ct := pct; h_rep_plain := plain;
@@ -242,7 +243,7 @@ Definition step_agree (pre : client) (h : hstep) : bool :=
         (* the server answers exactly the requests whose cookie it can open *)
         Bool.eqb (so_served o) (so_forwarded o && so_openable o) &&
         (if so_intact o then so_served o else true) &&
-        (if so_served o then
+        (if so_served o && negb (so_foreign o) then
            match server_reply (seal_of qs) (open_of qs) req (c2s d) (s2c d) (observed_cookies cs_obs)
                    (h_rep_nonce h) (firstn 48 rep) with
            | Ok (b, sent) =>
@@ -311,8 +312,8 @@ Definition glue_store (a o : list value) : option verdict :=
           let m := fold_left (fun c x => store c [x]) cs client0 in
           (* oracle: nothing is invented, and cookies of the issued length are all kept, in order *)
           Some (functional [VL (map VB (pool m))] o
-                  (forallb (fun x => mem x cs) p &&
-                   (if issued_shape cs then bseq p cs else true)))
+                  ((zlen p <=? 8) && forallb (fun x => mem x cs) p &&
+                   (if issued_shape cs then bseq p (firstn 8 cs) else true)))
       | _, _ => None
       end
   | _, _ => None
